@@ -390,9 +390,15 @@ theorem dashed_ml (m : Manifest) :
     · simp [List.filter_cons, h, ih]
     · simp [List.filter_cons, h, ih]
 
-/-- every operation keeps `ShowInv` (create: with N1 repaired) -/
+/-- what a pulled manifest must offer for `show` to work: a model layer, all model layers decodable -/
+def PullShowOk (env : Env) : Op → Prop
+  | .pull _ (some m) _ => ml m.layers ≠ [] ∧ ∀ l ∈ ml m.layers, DecL env l
+  | _ => True
+
+/-- every operation keeps `ShowInv` (create: with N1 repaired; pull: of a manifest that can be shown) -/
 theorem step_showInv {env : Env} (hv : env.v.fixReturn = true) (hinj : HashInj env) {st : Store}
-    (hb : BlobsOk env st) (hs : ShowInv env st) (op : Op) (ch : Choice) : ShowInv env (step env st op ch).1 := by
+    (hb : BlobsOk env st) (hs : ShowInv env st) (op : Op) (ch : Choice) (hp : PullShowOk env op) :
+    ShowInv env (step env st op ch).1 := by
   have frame := step_man_frame env st op ch
   have same : targets env st op ch = [] → ShowInv env (step env st op ch).1 := fun ht =>
     showInv_of hs (fun n m hm => Or.inl (by rw [← frame n (by rw [ht]; simp)]; exact hm))
@@ -402,6 +408,20 @@ theorem step_showInv {env : Env} (hv : env.v.fixReturn = true) (hinj : HashInj e
   | litter j c => exact same rfl
   | litterBlob k c => exact same rfl
   | create r => exact createAt_showInv hv hinj hb hs r _ _
+  | pull t reg served =>
+    refine showInv_of hs (fun n m hm => ?_)
+    by_cases hn : n = resolveName env st ch.ord1 t
+    · subst hn
+      simp only [step] at hm
+      rcases pullAt_mans env st (resolveName env st ch.ord1 t) reg served with h | ⟨m0, hreg, h⟩
+      · exact Or.inl (by rw [← man_congr h _]; exact hm)
+      · unfold Store.man at hm
+        rw [h, aget_aset] at hm
+        simp only [if_true] at hm
+        injection hm with e; injection e with e; subst e
+        subst hreg
+        exact Or.inr hp
+    · exact Or.inl (by rw [← frame n (by simp [targets, hn])]; exact hm)
   | copy s d =>
     refine showInv_of hs (fun n m hm => ?_)
     by_cases hn : n = resolveName env st ch.ord2 d
